@@ -210,6 +210,25 @@ pub struct Violation {
     pub fail: Fail,
     /// call-order pass: the execution that was run immediately before this one on the same thread
     pub preceded_by: Option<(usize, Vec<u32>)>,
+    /// ambient pass: (name of the ambient activity, whether its objects were still alive) under which the execution fails
+    pub ambient: Option<(&'static str, bool)>,
+}
+
+/// An ambient activity: other use of the library's public API on the same thread, whose objects are either kept alive
+/// while the executions of a phase run ("held") or dropped before they run. Pure operations must not care.
+#[derive(Clone, Copy)]
+pub struct Ambient {
+    pub name: &'static str,
+    pub what: &'static str,
+    pub enter: fn() -> Box<dyn std::any::Any>,
+}
+static AMBIENT: std::sync::OnceLock<Vec<Ambient>> = std::sync::OnceLock::new();
+/// register the ambient alphabet (once, before any check runs)
+pub fn set_ambient(v: Vec<Ambient>) {
+    let _ = AMBIENT.set(v);
+}
+pub fn ambient_alphabet() -> &'static [Ambient] {
+    AMBIENT.get().map(|v| v.as_slice()).unwrap_or(&[])
 }
 
 pub struct PhaseReport {
@@ -223,6 +242,10 @@ pub struct PhaseReport {
     /// call-order pass: number of representative executions R (every ordered pair = R*R two-call sequences)
     pub order_reps: usize,
     pub order_pairs: u64,
+    /// ambient pass: "full" (whole tree re-explored) or "representatives", number of (activity, held/dropped) passes, executions run
+    pub ambient_mode: &'static str,
+    pub ambient_passes: usize,
+    pub ambient_executions: u64,
 }
 
 pub struct Config {
@@ -238,6 +261,8 @@ pub struct Config {
     /// directory for crash breadcrumbs: every worker records the work item it is about to explore, so that a process crash
     /// (stack overflow, abort) inside subject code can be traced to a handful of items by bin/check
     pub crumb_dir: Option<String>,
+    /// run the ambient pass (every phase again under every registered ambient activity)
+    pub ambient: bool,
 }
 
 fn run_one(body: &Body, unit: usize, cx: &mut Cx) -> Verdict {
@@ -383,11 +408,11 @@ pub fn run_phase(ph: &Phase, cfg: &Config) -> PhaseReport {
                                     let mut f = f;
                                     f.what = format!("{} [history-dependent: the same execution alone in a fresh thread satisfies the property]", f.what);
                                     if suspect.as_ref().map_or(true, |(i0, _)| it < *i0) {
-                                        suspect = Some((it, Violation { phase: ph.name, unit, choices: ch, fail: f, preceded_by: None }));
+                                        suspect = Some((it, Violation { phase: ph.name, unit, choices: ch, fail: f, preceded_by: None, ambient: None }));
                                     }
                                 } else {
                                     min_bad.fetch_min(it, Ordering::SeqCst);
-                                    viol = Some((it, Violation { phase: ph.name, unit, choices: ch, fail: f, preceded_by: None }));
+                                    viol = Some((it, Violation { phase: ph.name, unit, choices: ch, fail: f, preceded_by: None, ambient: None }));
                                     break;
                                 }
                             }
@@ -468,7 +493,7 @@ pub fn run_phase(ph: &Phase, cfg: &Config) -> PhaseReport {
     let history_dependent = violation.is_none() && suspect.is_some();
     if (violation.is_none() || history_dependent) && !capped && cfg.order_reps > 0 {
         let must_keep = suspect.as_ref().map(|(_, v)| (v.unit, v.choices.clone()));
-        let mut reps = std::mem::take(&mut stats.reps);
+        let mut reps = stats.reps.clone();
         reps.sort();
         reps.dedup();
         // keep the pass within a CPU budget: R*R two-call sequences at the phase's measured cost per execution
@@ -542,7 +567,7 @@ pub fn run_phase(ph: &Phase, cfg: &Config) -> PhaseReport {
                         let key = i * picked.len() + j + if confirmed { 0 } else { picked.len() * picked.len() };
                         if g.as_ref().map_or(true, |(k, _)| key < *k) {
                             f.what = format!("{} [in the call-order pass: only after another call on the same thread{}]", f.what, if confirmed { "" } else { "; NOT reproduced by the two calls alone" });
-                            *g = Some((key, Violation { phase: ph.name, unit: picked[j].0, choices: picked[j].1.clone(), fail: f, preceded_by: Some(picked[i].clone()) }));
+                            *g = Some((key, Violation { phase: ph.name, unit: picked[j].0, choices: picked[j].1.clone(), fail: f, preceded_by: Some(picked[i].clone()), ambient: None }));
                         }
                     }
                 });
@@ -557,6 +582,122 @@ pub fn run_phase(ph: &Phase, cfg: &Config) -> PhaseReport {
         // a suspect that the call-order pass could not re-derive is still a real observation
         violation = suspect;
     }
+    // ---- ambient pass: the phase is explored again under every ambient activity (other use of the public API on the same
+    // thread), once with the activity's objects alive and once after they were dropped. Every execution is judged by the
+    // phase's own oracle, which it satisfied alone: a failure means the operation is not a function of its arguments.
+    let mut ambient_mode = "off";
+    let mut ambient_passes = 0usize;
+    let mut ambient_executions = 0u64;
+    let amb = ambient_alphabet();
+    if violation.is_none() && !capped && cfg.ambient && !amb.is_empty() {
+        let passes: Vec<(usize, bool)> = (0..amb.len()).flat_map(|a| [(a, true), (a, false)]).collect();
+        let cpu_main = t0.elapsed().as_secs_f64() * nthreads as f64;
+        let per_exec = (cpu_main / (stats.executions.max(1) as f64)).max(2e-8);
+        let budget = if cfg.thorough { 640.0 } else { 40.0 };
+        let full = stats.executions as f64 * per_exec * passes.len() as f64 <= budget;
+        // jobs: (pass, chunk of the work list); every job runs in a thread of its own so that the activity starts from a clean thread
+        let mut reps = std::mem::take(&mut stats.reps);
+        reps.sort();
+        reps.dedup();
+        let work: Vec<(usize, Vec<u32>)> = if full {
+            items.clone()
+        } else {
+            let n = ((budget / (passes.len() as f64 * per_exec)) as usize).max(16).min(reps.len());
+            if reps.len() <= n { reps } else { (0..n).map(|k| reps[k * reps.len() / n].clone()).collect() }
+        };
+        ambient_mode = if full { "full" } else { "representatives" };
+        ambient_passes = passes.len();
+        let chunks = cfg.threads.max(1).min(work.len().max(1));
+        let jobs: Vec<(usize, usize)> = (0..passes.len()).flat_map(|p| (0..chunks).map(move |c| (p, c))).collect();
+        let nextj = AtomicUsize::new(0);
+        let execs = std::sync::atomic::AtomicU64::new(0);
+        // (key, violation): key orders by pass, then position in the work list; confirmed failures first
+        let found: Mutex<Option<(usize, Violation)>> = Mutex::new(None);
+        let wl = work.len().max(1);
+        let unconf = passes.len() * wl;
+        std::thread::scope(|s| {
+            for _ in 0..cfg.threads.max(1).min(jobs.len().max(1)) {
+                s.spawn(|| loop {
+                    let ji = nextj.fetch_add(1, Ordering::SeqCst);
+                    if ji >= jobs.len() {
+                        break;
+                    }
+                    let (p, c) = jobs[ji];
+                    let (a, held) = passes[p];
+                    let (lo, hi) = (c * work.len() / chunks, (c + 1) * work.len() / chunks);
+                    if found.lock().unwrap().as_ref().map_or(false, |(k, _)| *k < p * wl + lo) {
+                        continue;
+                    }
+                    let hit: Option<(usize, Vec<u32>, Fail, bool)> = std::thread::scope(|s2| {
+                        std::thread::Builder::new()
+                            .stack_size(1 << 21)
+                            .spawn_scoped(s2, || {
+                                let g = (amb[a].enter)();
+                                let _keep = if held { Some(g) } else { drop(g); None };
+                                let mut n = 0u64;
+                                let mut out = None;
+                                'w: for w in lo..hi {
+                                    let (unit, fixed) = (work[w].0, &work[w].1);
+                                    let mut cx = Cx::new(ph.classes.len(), cfg.thorough, cfg.seed);
+                                    cx.forced = fixed.clone();
+                                    cx.forced_widths = vec![0; fixed.len()];
+                                    loop {
+                                        let v = run_one(&ph.body, unit, &mut cx);
+                                        n += 1;
+                                        if let Err(f) = v {
+                                            if !f.finding.map_or(false, |k| cfg.known.iter().any(|x| x == k)) {
+                                                let ch = cx.choices();
+                                                // confirm: the activity and this one execution alone, in a fresh thread
+                                                let confirmed = std::thread::scope(|s3| {
+                                                    s3.spawn(|| {
+                                                        let g = (amb[a].enter)();
+                                                        let _keep = if held { Some(g) } else { drop(g); None };
+                                                        run_single_q(ph, unit, &ch, cfg.thorough, cfg.seed).0.is_err()
+                                                    })
+                                                    .join()
+                                                    .unwrap_or(false)
+                                                });
+                                                out = Some((w, ch, f, confirmed));
+                                                break 'w;
+                                            }
+                                        }
+                                        if !full || !advance(&mut cx, fixed.len()) {
+                                            break;
+                                        }
+                                        if n & 0x3ff == 0 && found.lock().unwrap().as_ref().map_or(false, |(k, _)| *k < p * wl + lo) {
+                                            break 'w;
+                                        }
+                                    }
+                                }
+                                execs.fetch_add(n, Ordering::Relaxed);
+                                out
+                            })
+                            .expect("spawn")
+                            .join()
+                            .unwrap_or(None)
+                    });
+                    if let Some((w, ch, mut f, confirmed)) = hit {
+                        let key = p * wl + w + if confirmed { 0 } else { unconf };
+                        let mut g = found.lock().unwrap();
+                        if g.as_ref().map_or(true, |(k, _)| key < *k) {
+                            f.what = format!(
+                                "{} [in the ambient pass: the same execution alone satisfies the property; it fails {} {} on the same thread{}]",
+                                f.what,
+                                if held { "while the objects of this activity are alive:" } else { "after this activity (its objects already dropped):" },
+                                amb[a].what,
+                                if confirmed { "" } else { "; NOT reproduced by the activity and this execution alone" }
+                            );
+                            *g = Some((key, Violation { phase: ph.name, unit: work[w].0, choices: ch, fail: f, preceded_by: None, ambient: Some((amb[a].name, held)) }));
+                        }
+                    }
+                });
+            }
+        });
+        ambient_executions = execs.load(Ordering::SeqCst);
+        if let Some((_, v)) = found.into_inner().unwrap() {
+            violation = Some((usize::MAX, v));
+        }
+    }
     PhaseReport {
         name: ph.name,
         stats,
@@ -567,6 +708,9 @@ pub fn run_phase(ph: &Phase, cfg: &Config) -> PhaseReport {
         units: ph.units,
         order_reps,
         order_pairs,
+        ambient_mode,
+        ambient_passes,
+        ambient_executions,
     }
 }
 
@@ -581,7 +725,7 @@ fn run_single_q(ph: &Phase, unit: usize, choices: &[u32], thorough: bool, seed: 
 /// explore one work item on the calling thread, recording every execution in `crumb` before it is run (crash localisation)
 pub fn run_item(ph: &Phase, thorough: bool, seed: u64, item: usize, crumb: &str) -> i32 {
     use std::os::unix::fs::FileExt;
-    let cfg = Config { thorough, seed, threads: 1, cap_s: 1e9, known: vec![], order_reps: 0, crumb_dir: None };
+    let cfg = Config { thorough, seed, threads: 1, cap_s: 1e9, known: vec![], order_reps: 0, crumb_dir: None, ambient: false };
     let (items, _) = work_items(ph, &cfg);
     let Some((unit, fixed)) = items.get(item).cloned() else { machinery("item index out of range") };
     let f = std::fs::OpenOptions::new().create(true).write(true).truncate(true).open(crumb).unwrap_or_else(|e| machinery(&format!("crumb file: {e}")));
@@ -687,6 +831,7 @@ pub fn run_check(chk: Check, thorough: bool, seed: u64, extra_violation: Option<
             let _ = std::fs::remove_dir_all(&d);
             std::fs::create_dir_all(&d).ok().map(|_| d)
         },
+        ambient: std::env::var("VERIF_AMBIENT").map_or(true, |v| v != "0"),
     };
     let mut reports = vec![];
     for ph in &chk.phases {
@@ -728,7 +873,8 @@ pub fn run_check(chk: Check, thorough: bool, seed: u64, extra_violation: Option<
         phases_json.push(json!({"phase": r.name, "units": r.units, "states": r.stats.states, "transitions": r.stats.transitions,
             "executions": r.stats.executions, "nontrivial": r.stats.nontrivial, "subject_evaluations": r.stats.evals,
             "exhaustive": r.exhaustive, "wall_s": (r.wall_s * 1000.0).round() / 1000.0,
-            "call_order_pass": {"representative_executions": r.order_reps, "ordered_pairs_run": r.order_pairs}}));
+            "call_order_pass": {"representative_executions": r.order_reps, "ordered_pairs_run": r.order_pairs},
+            "ambient_pass": {"mode": r.ambient_mode, "passes": r.ambient_passes, "executions": r.ambient_executions}}));
         bounds.insert(r.name.to_string(), ph.bounds.clone());
         if violation.is_none() {
             violation = r.violation.as_ref();
@@ -747,6 +893,7 @@ pub fn run_check(chk: Check, thorough: bool, seed: u64, extra_violation: Option<
             "property": chk.id, "tier": if thorough {"thorough"} else {"quick"}, "seed": seed,
             "phase": v.phase, "unit": v.unit, "choices": v.choices,
             "preceded_by": v.preceded_by.as_ref().map(|p| json!({"unit": p.0, "choices": p.1})),
+            "ambient": v.ambient.map(|a| json!({"activity": a.0, "held": a.1})),
             "what": v.fail.what, "detail": v.fail.detail,
             "replay_cmd": format!("{root}/bin/check {} replay <this file>", chk.id),
         });
@@ -803,6 +950,9 @@ pub fn run_check(chk: Check, thorough: bool, seed: u64, extra_violation: Option<
     cov.insert("phases".into(), Value::Array(phases_json));
     cov.insert("call_order_pass".into(), json!({"what": "per phase, every ordered pair (i, j) of R representative executions (collected at power-of-two positions of every work item, evenly subsampled) is run as the two-call sequence i-then-j on one thread and j is judged by the same oracle: detects results that depend on the previous call (hidden thread-local / cached state)",
         "ordered_pairs_run": reports.iter().map(|r| r.order_pairs).sum::<u64>()}));
+    cov.insert("ambient_pass".into(), json!({"what": "per phase, the exploration is repeated under every ambient activity (other use of the library's public API on the same thread), once with the activity's objects alive and once after they were dropped, each pass on fresh threads; mode full = the whole choice tree again, mode representatives = the representative executions (when the whole tree would exceed the pass budget). Detects results that depend on what else the thread has done or holds (thread-local, CPU-mode or global state)",
+        "activities": ambient_alphabet().iter().map(|a| json!({"name": a.name, "what": a.what})).collect::<Vec<_>>(),
+        "executions_run": reports.iter().map(|r| r.ambient_executions).sum::<u64>()}));
     cov.insert("known_findings".into(), Value::Array(known_json));
     cov.insert("controls_passed".into(), json!(chk.controls.iter().map(|c| c.0).collect::<Vec<_>>()));
     if !exhaustive && exit == 0 {
@@ -855,11 +1005,27 @@ pub fn replay(chk: &Check, file: &str) -> i32 {
     let pre: Option<(usize, Vec<u32>)> = v.get("preceded_by").filter(|p| !p.is_null()).map(|p| {
         (p["unit"].as_u64().unwrap_or(0) as usize, p["choices"].as_array().map(|a| a.iter().map(|x| x.as_u64().unwrap() as u32).collect()).unwrap_or_default())
     });
+    let ambient: Option<(Ambient, bool)> = v.get("ambient").filter(|p| !p.is_null()).map(|p| {
+        let name = p["activity"].as_str().unwrap_or("");
+        let a = ambient_alphabet().iter().find(|a| a.name == name).unwrap_or_else(|| machinery(&format!("replay: unknown ambient activity '{name}'")));
+        (*a, p["held"].as_bool().unwrap_or(true))
+    });
     let once = || {
-        if let Some((pu, pc)) = &pre {
-            let _ = run_single_q(ph, *pu, pc, thorough, seed);
-        }
-        run_single(ph, unit, &choices, thorough, seed)
+        // a thread of its own, as in the exploration (the ambient activity and the preceding call start from a clean thread)
+        std::thread::scope(|s| {
+            s.spawn(|| {
+                let _keep = ambient.map(|(a, held)| {
+                    let g = (a.enter)();
+                    if held { Some(g) } else { drop(g); None }
+                });
+                if let Some((pu, pc)) = &pre {
+                    let _ = run_single_q(ph, *pu, pc, thorough, seed);
+                }
+                run_single(ph, unit, &choices, thorough, seed)
+            })
+            .join()
+            .unwrap_or_else(|_| machinery("replay: the execution thread panicked"))
+        })
     };
     let (r1, t1) = once();
     let (r2, t2) = once();
@@ -867,7 +1033,7 @@ pub fn replay(chk: &Check, file: &str) -> i32 {
         Ok(()) => "held".to_string(),
         Err(f) => format!("{} {}", f.what, f.detail),
     };
-    if pre.is_some() {
+    if pre.is_some() || ambient.is_some() {
         // a two-call sequence exposes hidden state, whose stale contents may differ from run to run: only the verdict must agree
         if r1.is_err() != r2.is_err() {
             machinery("replay: two runs of the same two-call sequence disagree on the verdict");
